@@ -16,8 +16,8 @@ correspondence, family `RF`, on texts that ARE `renderFile` outputs — tag `ren
 * `parseRules_render` — the whole file, for rules written on one line each (any white space but line breaks inside a
   rule; anything between rules) and without comments;
 * `parseRules_render_nth` — rule `i` of the result is determined by rule `i` of the source (and its table offset) alone.
-Still open (kept as `def … : Prop`): `parseRules_render_full` — line breaks (and hence comments) inside rules; it needs exactly
-`cleanText_layout_full` below.  Comments between rules: Theorems5.
+Line breaks (and hence comments) inside rules: `cleanText_layout` / `parseRules_render_full` (Theorems6).  Comments between
+rules: Theorems5.
 -/
 namespace C04
 
@@ -221,25 +221,8 @@ theorem parseRules_render_nth (X : Ext) (g0 : Str) (rs1 rs2 : List (RuleSrc × S
     obtain ⟨y, hy, hy2⟩ := mapM_id_get hout _ _ hget
     exact ⟨y, hy, hy2⟩
 
-/-! ### what is still open -/
-
-/-- `clean_text` on a rule whose white-space slots contain line breaks: every slot with a line break becomes one blank, the
-others are unchanged (`norm`), tokens are untouched.  NOT proved. -/
-def cleanText_layout_full : Prop :=
-  ∀ (n : Nat) (r : RuleSrc), r.Ok → ∃ r' : RuleSrc, r'.Ok ∧ r'.name = r.name ∧ r'.quoted = r.quoted
-    ∧ r'.cond.sem = r.cond.sem ∧ r'.cond.leaves = r.cond.leaves ∧ r'.stmts.map (·.2.1) = r.stmts.map (·.2.1)
-    ∧ r'.attrs.map (fun a => (a.kind, a.val, a.sal)) = r.attrs.map (fun a => (a.kind, a.val, a.sal))
-    ∧ cleanText (r.mrender n) = r'.mrender n
-
-/-- the whole-file statement without the one-line hypothesis (rules spread over several lines); follows from `parseRules_render`
-with `cleanText_layout_full` (the slot-normalised file has the same rules).  Comments between rules: `parseRules_render_comments`
-(Theorems5); comments inside a rule leave line breaks inside it and need this statement too. -/
-def parseRules_render_full (X : Ext) : Prop :=
-  ∀ (g0 : Str) (rs : List (RuleSrc × Str)) (gc : Str → Condition) (ga : Str → Action), Ws g0 →
-    (∀ x ∈ rs, x.1.Ok ∧ Ws x.2 ∧ x.2 ≠ []) → (∀ k, ∀ x ∈ rs, x.1.CodeOk k) →
-    stripComments (renderFile g0 rs) none = renderFile g0 rs →
-    LeavesOk X (litsFile rs) gc ga 0 rs →
-    parseRules X (renderFile g0 rs) = (rulesOf X gc ga 0 rs).mapM id
+/-! Line breaks (and comments) INSIDE rules: `cleanText_layout`, `parseRules_render_full`, `parseRules_render_layout_comments`
+(Theorems6). -/
 
 /-! ### sufficient conditions for the hypotheses, and a concrete file (non-vacuity) -/
 
